@@ -4,6 +4,7 @@
 (*   reset  ep[e][a]                                    episode numbers of the observations env.reset() returned *)
 (*   step   term[e][a], trunc[e][a], ep[e][a], k[e][a]  what the vector environment's step returned             *)
 (*   learn  dones[t][e][a], nd[e][a], sid[t][e][a], nid[e][a], exc     what learn() received                     *)
+(*          PPO: lp_ok[t][e][a], val_ok[t][e][a], reeval_exc  (stored rows re-evaluated before learn)           *)
 (*   crash  an exception escaped the training function                                                        *)
 (* The environment side of the specification is driven by the recorded terminations / truncations (and its    *)
 (* same-step auto-reset rule is compared with the recorded observations); the flags, states and next_state    *)
@@ -92,6 +93,13 @@ TLearn ==
                                /\ ((RF(m + 1, c) = 1 /\ mode = "auto") => RO(m + 1, c)[1] # RO(m, c)[1]))
      /\ Check("received-no-leak: cut at the received flags, no window of the recursion spans two episode numbers",
               \A c \in Cols : \A t \in 1..m : \A u \in RW(t, c) : RO(u, c)[1] = RO(t, c)[1])
+     \* C17, last sentence, at the loop: rows re-evaluated with the unchanged policy before learn() (single-agent loop only)
+     /\ ("lp_ok" \in DOMAIN Ev) =>
+          /\ Check("reevaluation-runs: evaluate_actions on the stored rows returns without raising", Ev.reeval_exc = "")
+          /\ Check("stored-action-is-sampled-action: the action handed to learn() is the one the stored log-probability was computed for (re-evaluating the stored observation/action rows with the unchanged policy reproduces the stored log-probabilities)",
+                   Len(Ev.lp_ok) = m /\ \A c \in Cols : \A t \in 1..m : At(Ev.lp_ok[t], c) = 1)
+          /\ Check("stored-value-is-value-of-stored-observation: re-evaluating the stored observations with the unchanged critic reproduces the stored values",
+                   Len(Ev.val_ok) = m /\ \A c \in Cols : \A t \in 1..m : At(Ev.val_ok[t], c) = 1)
      /\ Check("learn-returns: learn() returns without raising", Ev.exc = "")
      \* the received flags are the specification's flags wherever the recursion reads them (row 1 is never read)
      /\ Check("flags-are-spec-flags: received flags rows 2..T and next_done equal the specification's",
